@@ -1,10 +1,35 @@
 (* C04 - operations that are not edits never change the document.
-   For every comment-attribution primitive (claim in both directions, unclaim, _shift_ignored, the interleaving
-   claimer and un-claimer) and every history of surrounding-comment calls: the new token list is a permutation of
-   the old one and the tokens that are not Placeholders are the *same tokens in the same order with the same
-   text* (same_vis), hence the printed text is unchanged.  Getters, iteration, ==, hash, deepcopy and printing do
-   not write the store in the model by construction; that the implementation's do not is checked by the
-   read-only sweep of harness/c14.py (monitor, not theorem). *)
+   (I)  Comment attribution.  For every comment-attribution primitive (claim in both directions, unclaim,
+   _shift_ignored, the interleaving claimer and un-claimer) and every history of surrounding-comment calls: the new
+   token list is a permutation of the old one and the tokens that are not Placeholders are the *same tokens in the same
+   order with the same text* (same_vis), hence the printed text is unchanged.
+   (II) The other non-edit operations the development models (ReadOnlyProofs.v):
+     - wrappers and views created lazily and cached on first read (repeated_node_property._get,
+       cached_custom_property._get), the deep copy of a wrapper, and reads through wrappers / views (WholeField.v): they
+       DO write the heap (instance caches, handler lists, the copy's new objects) but every Repeated that existed keeps
+       its items, attachment and liveness, every instance keeps its list, every handler that was registered is still
+       registered with the cache it had - for one step, for every history of such steps, for every variant of the code,
+       and in every heap reachable from a parsed document by any history of edits (C04_read_history);
+     - reading through a view (len, iteration, getitem, mapping get / contains / keys / values / items, the dict views:
+       Views.v) returns the state it was given - raw list and every index cache - and what a read returns does not
+       depend on the reads before it; creating a view appends one handler and keeps the raw list;
+     - copy.deepcopy of a model (Tree.clone, a function of its source): after any number of deep copies every live tree
+       is the same value at the same place; the copy prints its source's text and shares no token identity and no store
+       with ANY live tree;
+     - the token store's observers (get_index / get_position / get_prev / get_next / get_first / get_last / iteration /
+       range iteration / len: Store.v) are functions of the store; deleting them from a history that interleaves them
+       with edits gives the same final store, token list and texts.
+   ==, hash (Tree.node_eq; properties/C20.v) and printing are functions of their arguments in the model: there is no
+   state they could write, nothing to prove.  (I) and (II) are separate theorems on purpose: claiming interleaving
+   comments makes the comments ITEMS of the Repeated (items[:] = ...), so "raw lists unchanged" is false for it; its
+   guarantee is same_vis on the tokens.
+   That the implementation's getters, iteration, ==, hash, deepcopy and printing write nothing is checked on every run
+   by the read-only sweep of harness/c14.py (store snapshot) and, for the raw lists behind wrappers and views, by the
+   read-step monitor of harness/wholefield.py (monitor, not theorem). *)
+From AB Require Import Prelude PySeq Views WholeField WholeFieldProofs.
+From AB Require Import Desc Generated Tree TreeDefs TreeRun TreeFacts.
+From AB Require Store StoreRun StoreTop.
+From AB Require Import ReadOnlyProofs.
 From AB Require Import Prelude Comments CommentsProofs.
 
 Theorem C04_claim_comment : forall cur d start bw ig ind r d',
@@ -41,3 +66,163 @@ Example C04_nonvacuous :
   map t_id (snd (claim_comment None ex_doc 3 false false (Some false))) = [1; 2; 3; 5; 6; 4; 7; 8] /\
   fst (claim_comment None ex_doc 3 false false (Some false)) = Ok (Some 6).
 Proof. split; [exact ex_doc_nodup | split; vm_compute; reflexivity]. Qed.
+
+(* ==== (II) the other non-edit operations ====================================================================== *)
+
+(* ---- wrappers, views, wrapper copies (WholeField.v) ---- *)
+(* one non-edit step (wread: WGetWrapper, WGetView, WCopy, a read through a wrapper's view), any variant of the code *)
+Theorem C04_wrapper_read_step : forall var h o, wread o = true -> reps_bounded h ->
+  forall k R, WholeField.lookup k (h_reps h) = Some R -> WholeField.lookup k (h_reps (fst (wstep var h o))) = Some R.
+Proof. exact read_step_keeps_reps. Qed.
+
+(* a read through a wrapper or a view returns the very heap it was given *)
+Theorem C04_wrapper_read_through : forall h w o, read_only o = true -> fst (edit h w o) = h.
+Proof. exact edit_read_heap. Qed.
+
+(* any history of non-edit steps: every Repeated that existed is exactly as it was (items, attachment, liveness) *)
+Theorem C04_wrapper_read_history_reps : forall var ops h, Forall (fun o => wread o = true) ops -> reps_bounded h ->
+  forall k R, WholeField.lookup k (h_reps h) = Some R -> WholeField.lookup k (h_reps (wrun var h ops)) = Some R.
+Proof. exact read_history_keeps_reps. Qed.
+
+(* ... every instance holds the same list object with the same items *)
+Theorem C04_wrapper_read_history_fields : forall var ops h, Forall (fun o => wread o = true) ops -> reps_bounded h ->
+  forall i ins its, WholeField.lookup i (h_insts h) = Some ins -> field_items h ins = Some its ->
+  exists ins', WholeField.lookup i (h_insts (wrun var h ops)) = Some ins' /\ i_field ins' = i_field ins
+               /\ field_items (wrun var h ops) ins' = Some its.
+Proof. exact read_history_keeps_fields. Qed.
+
+(* ... every handler (view with its index cache) registered on an existing wrapper is still there, in place, unchanged *)
+Theorem C04_wrapper_read_history_views : forall var ops h, Forall (fun o => wread o = true) ops -> wrps_bounded h ->
+  forall w W, WholeField.lookup w (h_wrps h) = Some W ->
+  exists W', WholeField.lookup w (h_wrps (wrun var h ops)) = Some W' /\ w_rep W' = w_rep W
+             /\ forall k v, nth_error (w_views W) k = Some v -> nth_error (w_views W') k = Some v.
+Proof. exact read_history_keeps_views. Qed.
+
+(* the combined statement: in every heap reachable from a parsed document by ANY history `pre` (edits, whole-field
+   assignments, copies ...), a history of non-edit steps leaves every raw list as it was *)
+Theorem C04_read_history : forall its pre ops, Forall (fun o => wread o = true) ops ->
+  let h := wrun VRepaired (init_heap its) pre in
+  let h' := wrun VRepaired h ops in
+  (forall k R, WholeField.lookup k (h_reps h) = Some R -> WholeField.lookup k (h_reps h') = Some R)
+  /\ (forall i ins, WholeField.lookup i (h_insts h) = Some ins ->
+        exists ins' its0, WholeField.lookup i (h_insts h') = Some ins' /\ i_field ins' = i_field ins
+                          /\ field_items h ins = Some its0 /\ field_items h' ins' = Some its0).
+Proof. exact reachable_read_history. Qed.
+
+(* what a read through an existing view returns after a history of non-edit steps is what it returned before it *)
+Theorem C04_wrapper_reads_same_answers : forall var ops h w W R o,
+  Forall (fun o => wread o = true) ops -> w < h_next h -> w_rep W < h_next h ->
+  WholeField.lookup w (h_wrps h) = Some W -> WholeField.lookup (w_rep W) (h_reps h) = Some R ->
+  read_only o = true -> (op_view o < length (w_views W))%nat ->
+  snd (edit (wrun var h ops) w o) = snd (edit h w o).
+Proof. exact read_history_same_answers. Qed.
+
+Example C04_same_answers_instance :
+  let h := wrun VRepaired (init_heap ex_its) (ex_read ++ [WEdit 2 (RAppend (mkelem 1 0 9)); WEdit 3 (RPop 0)]) in
+  exists W R, WholeField.lookup 2 (h_wrps h) = Some W /\ WholeField.lookup (w_rep W) (h_reps h) = Some R
+    /\ (2 <? h_next h) = true /\ (w_rep W <? h_next h) = true
+    /\ Nat.ltb (op_view (VIter 1)) (length (w_views W)) = true
+    /\ snd (edit (wrun VRepaired h ex_ro) 2 (VIter 1)) = Ok (RL [mkelem 0 0 2]).
+Proof. eexists. eexists. vm_compute. repeat split; reflexivity. Qed.
+
+(* non-vacuity: after edits (an append, a pop), ex_ro (three cached reads, a wrapper copy, reads through views, a cached
+   re-read) is a history of non-edit steps that really runs: the allocator moves from 4 to 6 (the copied Repeated and its
+   wrapper), the lists are [.. ; appended] and the popped one, before and after *)
+Example C04_read_history_instance :
+  let pre := ex_read ++ [WEdit 2 (RAppend (mkelem 1 0 9)); WEdit 3 (RPop 0)] in
+  let h := wrun VRepaired (init_heap ex_its) pre in
+  let h' := wrun VRepaired h ex_ro in
+  Forall (fun o => wread o = true) ex_ro /\ reps_bounded h /\ wrps_bounded h
+  /\ h_next h = 4 /\ h_next h' = 6
+  /\ option_map r_items (WholeField.lookup 0 (h_reps h)) = Some [mkelem 1 0 1; mkelem 2 0 2; mkelem 1 0 9]
+  /\ option_map r_items (WholeField.lookup 0 (h_reps h')) = Some [mkelem 1 0 1; mkelem 2 0 2; mkelem 1 0 9]
+  /\ option_map r_items (WholeField.lookup 1 (h_reps h')) = Some [mkelem 1 0 4]
+  /\ option_map r_items (WholeField.lookup 4 (h_reps h')) = Some [mkelem 1 0 4]
+  /\ snd (wstep VRepaired h' (WEdit 2 (VIter 0))) = Ok (RL [mkelem 0 0 1; mkelem 0 0 9]).
+Proof.
+  assert (HI : WholeFieldProofs.Inv (wrun VRepaired (init_heap ex_its)
+                      (ex_read ++ [WEdit 2 (RAppend (mkelem 1 0 9)); WEdit 3 (RPop 0)]))) by (apply wrun_inv, init_inv).
+  destruct HI as (_ & _ & _ & _ & _ & _ & Hb1 & Hb2).
+  split; [exact ex_ro_reads|]. split; [exact Hb1|]. split; [exact Hb2|]. vm_compute. repeat split; reflexivity.
+Qed.
+
+(* ---- reading through a view (Views.v), code as found or repaired ---- *)
+Theorem C04_view_read : forall fx s o, read_only o = true -> fst (Views.step fx s o) = s.
+Proof. exact step_read_state. Qed.
+
+(* creating views and reading through them, any history: same raw list, the handlers that were there keep their caches *)
+Theorem C04_view_read_history : forall fx ops s, Forall (fun o => view_read o = true) ops ->
+  items (Views.run fx s ops) = items s /\ exists more, views (Views.run fx s ops) = views s ++ more.
+Proof. exact views_read_history. Qed.
+
+(* what any operation does or returns after a history of reads is what it does or returns without them *)
+Theorem C04_view_reads_do_not_interfere : forall fx ops s o, Forall (fun o => read_only o = true) ops ->
+  Views.step fx (Views.run fx s ops) o = Views.step fx s o.
+Proof. exact views_reads_do_not_interfere. Qed.
+
+Example C04_view_read_instance :
+  let s := mkst [mkelem 1 0 5; mkelem 2 0 6; mkelem 1 7 8] [] in
+  let ops := [ORegister [1] KString; VLen 0; VIter 0; VGet 0 (IInt (-1)); ORegister [1; 2] KNode; MGet 1 true 7;
+              MContains 1 3; MKeys 1; MValues 1 false; MItems 1 true; MDict 1 2 false DReversed; VGet 0 (IInt 5)] in
+  Forall (fun o => view_read o = true) ops
+  /\ items (Views.run true s ops) = items s /\ length (views (Views.run true s ops)) = 2%nat
+  /\ snd (Views.step true (Views.run true s ops) (VIter 0)) = Ok [mkelem 0 0 5; mkelem 0 0 8]
+  /\ snd (Views.step true (Views.run true s ops) (VGet 0 (IInt 5))) = Err IndexError.
+Proof. split; [repeat constructor|]. vm_compute. repeat split; reflexivity. Qed.
+
+(* ---- copy.deepcopy of a model (Tree.v) ---- *)
+(* any number of deep copies: every live tree is the same value (tokens, identities, texts, store ids, fields) at the
+   same place in the forest *)
+Theorem C04_deepcopy_keeps_forest : forall cs rq F j a,
+  nth_error F j = Some a -> nth_error (deepcopies cs F rq) j = Some a.
+Proof. exact deepcopies_keep_nth. Qed.
+
+(* the tree a deep copy adds prints its source's text and shares no token identity and no store with ANY live tree *)
+Theorem C04_deepcopy_apart : forall cs F k new f a,
+  classes_ok cs -> nth_error F k = Some a -> conforms cs a = true ->
+  (forall t, k_rule (f t) = k_rule t /\ k_text (f t) = k_text t) ->
+  (forall t y, In t (node_toks a ++ leaves a) -> In y (forest_toks F) -> k_id (f t) <> k_id y) ->
+  ~ In new (forest_sids F) ->
+  exists c, deepcopy cs F k new f = F ++ [c]
+    /\ text_of (node_toks c) = text_of (node_toks a)
+    /\ (forall x y, In x (node_toks c ++ leaves c) -> In y (forest_toks F) -> k_id x <> k_id y)
+    /\ (forall s, In s (sids c) -> ~ In s (forest_sids F)).
+Proof. exact deepcopy_apart. Qed.
+
+Example C04_deepcopy_instance :
+  let F := [ex_open_num; ex_open_other] in
+  classes_ok all_classes /\ nth_error F 0 = Some ex_open_num /\ conforms all_classes ex_open_num = true
+  /\ (forall t, k_rule (ex_fresh t) = k_rule t /\ k_text (ex_fresh t) = k_text t)
+  /\ (forall t y, In t (node_toks ex_open_num ++ leaves ex_open_num) -> In y (forest_toks F) ->
+        k_id (ex_fresh t) <> k_id y)
+  /\ ~ In 9 (forest_sids F)
+  /\ length (deepcopies all_classes F [(0%nat, 9, ex_fresh); (2%nat, 10, ex_fresh); (1%nat, 11, ex_fresh)]) = 5%nat
+  /\ length (leaves ex_open_num) = 16%nat.
+Proof.
+  split; [exact classes_ok_all|]. split; [reflexivity|]. split; [vm_compute; reflexivity|].
+  split; [exact ex_fresh_keeps|]. split; [apply fresh_b_ok; vm_compute; reflexivity|].
+  split; [|vm_compute; split; reflexivity].
+  intros H. vm_compute in H. repeat (destruct H as [H|H]; [discriminate H|]). exact H.
+Qed.
+
+(* ---- observers of the token store (Store.v) ---- *)
+(* a history that interleaves observers (mrun: MRead) with edits ends in the store its edits alone produce *)
+Theorem C04_store_reads_erasable : forall LF ops s,
+  fst (mrun LF s ops) = StoreTop.run_ops LF s (edits_of ops).
+Proof. exact store_reads_erasable. Qed.
+
+Theorem C04_store_reads_erasable_abs : forall LF ops s,
+  1 <= LF -> StoreInv.Inv s -> StoreOps.pure s -> StoreHist.ops_valid (StoreInv.abs s) (edits_of ops) ->
+  StoreInv.abs (fst (mrun LF s ops)) = StoreTop.ref_run (StoreInv.abs s) (edits_of ops)
+  /\ (forall t, StoreInv.txt (fst (mrun LF s ops)) t = StoreTop.ref_texts (StoreInv.txt s) (edits_of ops) t).
+Proof. exact store_reads_erasable_abs. Qed.
+
+Example C04_store_reads_instance :
+  StoreInv.Inv StoreTop.ex_s /\ StoreOps.pure StoreTop.ex_s
+  /\ StoreHist.ops_valid (StoreInv.abs StoreTop.ex_s) (edits_of ex_mixed)
+  /\ length ex_mixed = 44%nat /\ length (snd (mrun 2 StoreTop.ex_s ex_mixed)) = 37%nat
+  /\ StoreInv.abs (fst (mrun 2 StoreTop.ex_s ex_mixed)) = StoreInv.abs (StoreTop.run_ops 2 StoreTop.ex_s StoreTop.ex_ops).
+Proof.
+  split; [exact (proj1 StoreTop.ex_inv)|]. split; [exact StoreTop.ex_pure|].
+  split; [rewrite ex_mixed_edits; exact StoreTop.ex_ops_valid|]. vm_compute. repeat split; reflexivity.
+Qed.
